@@ -396,6 +396,7 @@ pub fn run(args: &Args) -> i32 {
 /// `--replay`: run one saved case (from a violation file) in this (fresh child) process
 pub fn run_case_file(space: &Space, bounds: &Bounds, file: &str, out: &str) -> i32 {
 	worker::install_panic_hook();
+	crate::alloc_track::arm();
 	let v: Value = serde_json::from_str(&std::fs::read_to_string(file).expect("case file")).expect("case json");
 	let c = Case {
 		target: space.target_index(v["dec"].as_str().expect("dec")),
